@@ -73,7 +73,7 @@ Section Accept.
   Variable cap : nat.                    (* orphan pool capacity (>= 1) *)
   Variable genesis : block.
   (** source flag: reorg() also puts the consensus back on the best block when rollforward fails
-      (fixes/F42_reorg_restore_consensus.diff; false for the code without that repair) *)
+      (fixes/F42_reorg_restore_consensus.diff, /repo commit 05cfcb8b; false for the code without that repair) *)
   Variable f42 : bool.
 
   Definition init : node :=
